@@ -1453,8 +1453,19 @@ def c12_check(case):
 
 # ======================================================================= C13
 
+RAW_ROLE_MODELS = [
+    {'roles_raw': [':prep-(?:against|in|out-of|on-behalf-of)', ':ARG[0-9]', ':mod', ':op[0-9]+']},
+    {'roles_raw': [':(?:part|consist)-of', ':ARG[0-9]', ':x-[a-z]+']},
+]
+
+
 def c13_gen(rng):
     spec = gen.gen_model(rng)
+    if maybe(rng, 0.1):
+        # role tables with patterns outside the model's literal/digit shapes (oracle only)
+        spec = rng.choice(RAW_ROLE_MODELS)
+        r = rng.choice([':prep-out-of', ':prep-in', ':prep-out-of-of', ':part-of', ':consist-of-of', ':x-ab', ':x-of', ':ARG1-of'])
+        return {'model': spec, 'role': r, 'tree': j_node(gen.gen_tree(rng, wf=True))}
     return {'model': spec, 'role': gen.gen_role_probe(rng, spec), 'tree': j_node(gen.gen_tree(rng, wf=maybe(rng, 0.7)))}
 
 
@@ -2173,8 +2184,35 @@ def c17_calls(g, h, m, text):
         ('errors', [g], lambda: repr(m.errors(g))),
         ('node_contexts', [g], lambda: repr(layout.node_contexts(g))),
         ('alignments', [g], lambda: repr((surface.alignments(g), surface.role_alignments(g)))),
+        # a model built from a dictionary (as from a JSON model file) chooses among alternative
+        # reifications / dereifications in the listed order, whatever the hash seed
+        ('from_dict', [], lambda: repr(_amr_from_dict_choices())),
+        # the command with several ordering keys applies them in the order given
+        ('cli', [], lambda: repr([ops.run_main('amr', o, [text])
+                                  for o in ({'rearrange': {'keys': ['invertedLast', 'alphanumeric'], 'attributesFirst': False}},
+                                            {'rearrange': {'keys': ['alphanumeric', 'invertedLast'], 'attributesFirst': True}},
+                                            {'reconfigure': ['canonical'], 'reifyEdges': True})])),
     ]
     return calls
+
+
+def _amr_from_dict_choices():
+    from penman.models import amr as amr_mod
+    d = {'roles': dict(amr_mod.roles), 'normalizations': dict(amr_mod.normalizations),
+         'reifications': [list(r) for r in amr_mod.reifications]}
+    m = Model.from_dict(d)
+    out = []
+    for role in (':poss', ':beneficiary', ':subset', ':superset', ':employed-by', ':role'):
+        try:
+            out.append(m.reify(('a', role, 'b'), set()))
+        except Exception as e:  # noqa: BLE001
+            out.append(type(e).__name__)
+    for concept, r1, r2 in (('include-91', ':ARG1', ':ARG2'), ('include-91', ':ARG2', ':ARG1'), ('have-org-role-91', ':ARG0', ':ARG1')):
+        try:
+            out.append(m.dereify(('_', ':instance', concept), ('_', r1, 'a'), ('_', r2, 'b')))
+        except Exception as e:  # noqa: BLE001
+            out.append(type(e).__name__)
+    return out
 
 
 def _safe(f):
